@@ -106,7 +106,9 @@ func TestC18Jar(t *testing.T) {
 					}
 					switch {
 					case k.TTL > 0:
-						ck.SetExpire(time.Now().Add(time.Duration(k.TTL) * time.Second))
+						// off the tick grid, like an Expires attribute (whole seconds) that travelled over HTTP: no operation
+						// of a history falls on a deadline instant, where the statement leaves the outcome open
+						ck.SetExpire(time.Now().Add(time.Duration(k.TTL)*time.Second - 250*time.Millisecond))
 					case k.TTL < 0:
 						ck.SetExpire(time.Now().Add(-24 * time.Hour))
 						nDeletes++
